@@ -343,6 +343,7 @@ PROPS = {
         "level": "proof",
         "race": True,
         "extract": ["Signals", "Client"],
+        "extra_modules": ["QiVerif.Props.C13Emit"],
         "rule": "a real server with the generated PingPong stub (signal pong) and 1-3 real clients (bus.Client + "
                 "Proxy.SubscribeID) over in-memory connections whose client-to-server direction the script can hold and "
                 "release; random scripts of subscribe / cancel / emit / other traffic / hold / release / observe (8-26 "
